@@ -55,6 +55,9 @@ def alphabet(tier):
         assign("a", ["nparr", [S(C(1), V("b")), S(C(2), V("b")), S(V("m"), V("b"))]]),
         acall(["a"], "<func>f", [["nparr", [C(0), V("<p>q")]]]),
         yield_(["nparr", [C(0), V("a"), V("<state>y")]]),
+        # tuple-valued arguments of call statements (not pymbolic expression nodes themselves)
+        acall(["a"], "<func>f", [["tuple", [V("b"), V("<p>q")]]]),
+        acall(["a", "b"], "<func>g2", [["tuple", [C(1), S(V("n"), V("m"))]]]),
         # implicit solves (declared sets only: no back end executes them): unknown with a name of its own, and an unknown
         # that shares its name with the variable used as initial guess
         gen.implicit(["a"], ["u"], [S(["prod", [V("u"), V("u")]], ["prod", [C(-1), V("b")]])], [["guess", V("n")]]),
